@@ -95,13 +95,14 @@ NFacsOK(nfacs, fb8) ==
   /\ FitsInt(nfacs) /\ ToInt(nfacs) >= 1 /\ ToInt(nfacs) <= 63
   /\ fb8 >= ToInt(nfacs) + 2
 
-\* select_a samples subsets of the 4*nfacs candidate factors with a u64 bit mask (1 << g).  Beyond 64
-\* candidates the shift wraps in release builds (biased but valid choice) and panics with overflow
-\* checks.  Reported as information only.
-MaskFits(nfacs) == FitsInt(nfacs) /\ 4 * ToInt(nfacs) <= 64
+\* select_a samples subsets of the 4*nfacs candidate factors with a bit mask (1 << g).  The mask was a
+\* u64 on the pinned tree (overflow from nfacs = 17 on: found by this contract as a note, repaired by
+\* fix 024760c); it is a u128 now, so the consumer needs 4*nfacs <= 128.
+MaskFits(nfacs) == FitsInt(nfacs) /\ 4 * ToInt(nfacs) <= 128
 
 SiqsOK(e) ==
   /\ FBaseOK(e.fb)
+  /\ MaskFits(e.nfacs)
   /\ NFacsOK(e.nfacs, Fb8(e.fb))
   /\ Ge(e.acount, One)                                 \* at least one A to sieve
   /\ Ge(e.adiv, N(3))                                  \* select_a: assert!(div >= 3)
@@ -159,6 +160,7 @@ ACountFits(acount, nfacs) ==
   LET k == ToInt(nfacs) IN k = 0 \/ k >= 9 \/ (FitsInt(acount) /\ ToInt(acount) <= Binom4(k))
 
 ClsOK(e) ==
+  /\ MaskFits(e.nfacs)
   /\ ACountFits(e.acount, e.nfacs)
   /\ FBaseOK(e.fb)
   /\ FitsInt(e.nfacs)
